@@ -11,6 +11,11 @@ semantics of the real crossbar:
     -> buffer -> command, then write_latency+1 / read_latency+1 delay stages).
 It never judges: it logs events (cycle-stamped, in the vocabulary of R_PortMem) and keeps the contents in a dict.
 `lenient=True` makes both data channels wait for valid/ready (only to reproduce the repository's own test stubs).
+`eager=True` models a native port that sits behind a FIFO-like stage (clock-domain crossing, width converter): `wdata.ready`
+is high at random REGARDLESS of outstanding commands (also before the write command is accepted), accepted beats queue up and
+are paired with the write commands in order; a write takes effect when both its command and its beat have arrived.  Reads
+keep the pulse semantics.  (The WDATA event of such a beat may precede its CMD event: use a monitor that allows early data,
+e.g. R_Conv.)
 """
 import collections, random, zlib
 
@@ -20,12 +25,14 @@ def tobytes(v, n):
 
 
 class IdealMem:
-    def __init__(self, ports, seed=0, lat=(3, 12), stall=0.3, lenient=False, init=None, max_outstanding=64, tag="m"):
+    def __init__(self, ports, seed=0, lat=(3, 12), stall=0.3, lenient=False, init=None, max_outstanding=64, tag="m", eager=False, wready=0.7):
         self.ports = list(ports)
         self.rnd = random.Random(seed * 2654435761 % (1 << 32) + 17)
         self.lat = lat
         self.stall = stall
         self.lenient = lenient
+        self.eager = eager
+        self.wready = wready
         self.mem = {}
         self.initf = init
         self.events = []            # (cycle, class, port, dict)   class: 1 CMD, 2 WDATA/WDROP, 3 RDATA/RDROP
@@ -65,6 +72,8 @@ class IdealMem:
         ready = [0] * len(self.ports)
         pulse_w = [None] * len(self.ports)   # command being strobed this cycle
         pulse_r = [None] * len(self.ports)
+        wfifo = [collections.deque() for _ in self.ports]      # eager mode: beats accepted ahead of / after their command
+        wrdy = [0] * len(self.ports)
         while True:
             c = self.cycle
             # ---- observe cycle c ----
@@ -74,7 +83,12 @@ class IdealMem:
                     self.events.append((c, 1, pi, dict(c="CMD", p=pi, we=bool(we), a=a, t=c)))
                     q.append([pi, bool(we), a, c + self.rnd.randint(*self.lat)])
                     self.outstanding += 1
-                if pulse_w[pi] is not None:
+                if self.eager and wrdy[pi] and (yield port.wdata.valid):
+                    d, m = (yield port.wdata.data), (yield port.wdata.we)
+                    wfifo[pi].append((d, m))
+                    self.events.append((c, 2, pi, dict(c="WDATA", p=pi, d=tobytes(d, self.nb),
+                                                       m=[(m >> j) & 1 for j in range(self.nb)], t=c)))
+                if pulse_w[pi] is not None and not self.eager:
                     cmd = pulse_w[pi]
                     if (yield port.wdata.valid):
                         d, m = (yield port.wdata.data), (yield port.wdata.we)
@@ -101,6 +115,14 @@ class IdealMem:
             started_w, started_r = set(), set()
             while q and q[0][3] <= c + 1:
                 pi, we, a, _ = q[0]
+                if we and self.eager:
+                    if not wfifo[pi]:
+                        break                      # the beat of this write has not arrived yet
+                    d, m = wfifo[pi].popleft()
+                    self.write(a, d, m)
+                    q.popleft()
+                    self.outstanding -= 1
+                    continue
                 if we:
                     if pulse_w[pi] is not None or pi in started_w:
                         break
@@ -119,7 +141,11 @@ class IdealMem:
             for pi, port in enumerate(self.ports):
                 ready[pi] = int(self.rnd.random() >= self.stall and self.outstanding < self.max_outstanding)
                 yield port.cmd.ready.eq(ready[pi])
-                yield port.wdata.ready.eq(1 if pulse_w[pi] is not None else 0)
+                if self.eager:
+                    wrdy[pi] = int(self.rnd.random() < self.wready and len(wfifo[pi]) < 8)
+                    yield port.wdata.ready.eq(wrdy[pi])
+                else:
+                    yield port.wdata.ready.eq(1 if pulse_w[pi] is not None else 0)
                 if pulse_r[pi] is not None:
                     yield port.rdata.valid.eq(1)
                     yield port.rdata.data.eq(pulse_r[pi][1])
